@@ -299,8 +299,11 @@ def explore(cfg: Config, root, max_depth, collect_frontier_at=None):
                     st.inc("state_key_recursion")
             broken = False
             for orc in cfg.step_oracles:
-                if orc(cfg, seq, data, vm, interp, p, out):
-                    broken = True
+                try:
+                    if orc(cfg, seq, data, vm, interp, p, out):
+                        broken = True
+                except Exception as e:  # noqa: BLE001 - unexpected behaviour of the code under test, not a harness crash
+                    _unexpected(cfg, out, e, cfg.labels(seq), data, len(seq))
             if broken:
                 # the two machines have diverged; every extension only restates this divergence
                 st.inc("pruned_after_step_violation")
@@ -309,7 +312,10 @@ def explore(cfg: Config, root, max_depth, collect_frontier_at=None):
                 st.inc("terminal_programs")
                 term = Term(cfg, seq, data + b".")
                 for orc in cfg.term_oracles:
-                    orc(term, out)
+                    try:
+                        orc(term, out)
+                    except Exception as e:  # noqa: BLE001
+                        _unexpected(cfg, out, e, cfg.labels(seq) + ["STOP"], data + b".", len(seq))
                 if len(out.samples) < 2 and len(seq) >= 3:
                     out.samples.append({"program": cfg.labels(seq) + ["STOP"], "bytes_hex": (data + b".").hex()})
             if len(seq) < max_depth:
@@ -317,6 +323,15 @@ def explore(cfg: Config, root, max_depth, collect_frontier_at=None):
             elif collect_frontier_at == len(seq):
                 out.frontier.append(seq)
     return out
+
+
+def _unexpected(cfg, out, e, labels, data, size):
+    import traceback
+
+    tb = traceback.extract_tb(e.__traceback__)
+    where = next((f"{os.path.basename(fr.filename)}:{fr.name}" for fr in reversed(tb) if "/fickling/" in fr.filename), "harness")
+    out.violate(cfg.prop, f"{cfg.prop}|unexpected-exception|{type(e).__name__}|{where}",
+                f"{type(e).__name__}: {e} at {where} on program {' '.join(labels)}", {"engine": "E1", "program": labels, "bytes": data}, size)
 
 
 def _f_accepts(cfg, fk, seq):
